@@ -1,9 +1,265 @@
-/- C17 — work in progress: the property theorems are being added. -/
-import ZodbModel.Recover
-namespace Props.C17
-open ZodbModel ZodbModel.Copy ZodbModel.Recover
+/-
+  C17 — Copying or recovering a storage reproduces its full history.
 
-/-- the empty store iterates to the empty history -/
-theorem iterate_empty : iterate [] = some [] := rfl
+  Property theorems only (helper lemmas: `Proofs/Copy.lean`, `Proofs/Recover*.lean`).
+
+  Copy part (`ZodbModel/Copy.lean`, record level): the source is whatever `source.iterator()`
+  yields (`List ITxn`: tid, status, metadata, records with resolved data — `none` = un-creation —
+  and the one-hop `data_txn` hint), so every source kind is covered; the destination is a
+  FileStorage built by `tpc_begin(txn, tid, status)` / `restore` / `tpc_vote` / `tpc_finish`.
+  The spec is the abstract history `absH` (hints dropped) resp. the iteration itself.
+
+  Recovery part (`ZodbModel/Recover.lean`, byte level): the input is an arbitrary byte list; a
+  well-formed data file is `encStore S` for a record-level store `S` with `WFStore S`.
+-/
+import Proofs.RecoverDamage
+namespace Props.C17
+open ZodbModel ZodbModel.Copy ZodbModel.Recover Proofs.Copy Proofs.Recover
+
+/-! ## copy -/
+
+/-- `copy_same_history`.  For EVERY source whose tids strictly increase and whose `data_txn` hints
+    are sound in the weakest sense (`SrcOKFrom []`: IF the hinted transaction precedes and holds a
+    record of that oid, its last such record carries the same data — nothing is required of a hint
+    that names an absent transaction), copying into the empty FileStorage succeeds and the
+    destination's iterator yields the same history: same tids, status, user, description,
+    extension, records (oid, tid, data with back pointers resolved), un-creations included. -/
+theorem copy_same_history (src : List ITxn) (hsorted : TidsIncreasing src)
+    (hhints : SrcOKFrom [] src) :
+    ∃ D, copy src [] = .ok D ∧ ∃ its, iterate D = some its ∧ absH its = absH src :=
+  Proofs.Copy.copy_same_history hsorted hhints
+
+/-- the blob variant (`blob.copyTransactionsFromTo`: no time-stamp fix-up) needs no tid order -/
+theorem copyBlob_same_history (src : List ITxn) (hhints : SrcOKFrom [] src) :
+    ∃ D, copyBlobLoop src [] = .ok D ∧ ∃ its, iterate D = some its ∧ absH its = absH src :=
+  Proofs.Copy.copyBlob_same_history hhints
+
+/-- with the precise hints a FileStorage iterator yields (`SrcStrongFrom []`: the hint names the
+    preceding transaction whose last record of the oid carries the data, under its own tid) the
+    destination's iterator yields EXACTLY the source's iteration — hints included -/
+theorem copy_same_iteration (src : List ITxn) (hsorted : TidsIncreasing src)
+    (hhints : SrcStrongFrom [] src) : ∃ D, copy src [] = .ok D ∧ iterate D = some src :=
+  Proofs.Copy.copy_same_iteration hsorted hhints
+
+/-- every well-formed FileStorage (strictly increasing tids, record tid = transaction tid, each
+    back pointer designating the last record of its oid in an older transaction — undo records,
+    packed prefixes) is such a source: its iterator does not fail and yields increasing tids and
+    precise hints.  Hence a FileStorage → FileStorage copy iterates identically. -/
+theorem filestorage_is_source (S : Store) (h : StoreOK S) :
+    ∃ src, iterate S = some src ∧ TidsIncreasing src ∧ SrcStrongFrom [] src :=
+  storeOK_source h
+
+theorem copy_filestorage (S : Store) (h : StoreOK S) :
+    ∃ src D, iterate S = some src ∧ copy src [] = .ok D ∧ iterate D = some src := by
+  obtain ⟨src, h1, h2, h3⟩ := storeOK_source h
+  obtain ⟨D, h4, h5⟩ := Proofs.Copy.copy_same_iteration h2 h3
+  exact ⟨src, D, h1, h4, h5⟩
+
+/-- sources that never give a hint (MappingStorage, DemoStorage over it) are trivially sound -/
+theorem hintless_source_ok (src : List ITxn) (h : ∀ t ∈ src, ∀ r ∈ t.recs, r.dataTxn = none) :
+    SrcStrongFrom [] src := by
+  suffices ∀ rp, SrcStrongFrom rp src from this []
+  induction src with
+  | nil => intro _; trivial
+  | cons t rest ih =>
+    intro rp
+    refine ⟨fun r hr hh hdt => ?_, ih (fun t' ht' => h t' (List.mem_cons_of_mem _ ht')) _⟩
+    rw [h t List.mem_cons_self r hr] at hdt
+    simp at hdt
+
+/-- `copy_range`: on a source with increasing tids `iterator(start, stop)` yields exactly the
+    transactions with `start ≤ tid ≤ stop`, and copying that range reproduces their history (a
+    hint that names a transaction before `start` is simply not used — the repaired `restore`) -/
+theorem copy_range (src : List ITxn) (hsorted : TidsIncreasing src) (hhints : SrcOKFrom [] src)
+    (start stop : Option Nat) :
+    iterRange src start stop = src.filter (inRange start stop) ∧
+    ∃ D, copy (iterRange src start stop) [] = .ok D ∧ ∃ its, iterate D = some its ∧
+      absH its = absH (iterRange src start stop) :=
+  ⟨iterRange_eq_filter hsorted start stop, Proofs.Copy.copy_range hsorted hhints start stop⟩
+
+/-- blob contents: the destination gets exactly one blob file per source record that is a blob
+    record whose file the source has, under the same (oid, tid), with the same content -/
+theorem copy_blobs (isBlob : Bytes → Bool) (sb : Blobs) (src : List ITxn) (e : (Nat × Nat) × Bytes) :
+    e ∈ copyBlobs isBlob sb src ↔
+      ∃ t ∈ src, ∃ r ∈ t.recs, ∃ d, r.data = some d ∧ isBlob d = true ∧
+        loadBlob sb r.oid r.tid = some e.2 ∧ e.1 = (r.oid, r.tid) :=
+  mem_copyBlobs isBlob sb src e
+
+/-- the header `restore` writes: the oid, the SOURCE record's tid, and as `prev` the newest
+    committed record of that oid (the last one of the newest transaction that has one) -/
+theorem restore_header (D : Store) (r : IRec) (x : Rec) (h : restoreRec D r = .ok x) :
+    x.oid = r.oid ∧ x.serial = r.tid ∧ x.prev = indexGet D r.oid ∧
+      ∀ l i, x.prev = some (l, i) → ∃ newer t older, D = newer ++ t :: older ∧ l = older.length ∧
+        lastIdx r.oid (oids t) = some i ∧ ∀ n ∈ newer, lastIdx r.oid (oids n) = none := by
+  obtain ⟨h1, h2, h3⟩ := restoreRec_fields h
+  exact ⟨h1, h2, h3, fun l i hp => indexGet_spec (h3 ▸ hp)⟩
+
+/-! ## recovery -/
+
+/-- `recover_terminates`.  `recover` is a total function with the explicit fuel bound
+    FUEL := file length + 1 for the main loop and for `scan`, and back pointer + 1 for
+    `_loadBack_impl`; for EVERY byte image the bound is never exhausted.  (Provable only for the
+    repaired `scan`, whose every window either returns or advances by a positive amount, and the
+    repaired `_loadBack_impl`, whose back pointers strictly decrease.) -/
+theorem recover_terminates (b : Bytes) : recover b ≠ .fuel := recover_ne_fuel b
+
+/-- the inner loops, separately: `scan` returns 0 or a position strictly behind `pos` inside the
+    file, never running out of `file length - pos + 1` units of fuel … -/
+theorem scan_advances (b : Bytes) (fuel pos : Nat) (h : b.length - pos < fuel) :
+    ∃ p, scan b fuel pos = some p ∧ (p = 0 ∨ (pos < p ∧ p ≤ b.length)) := scan_spec b fuel pos h
+
+/-- … and following back pointers from `back` needs at most `back` hops -/
+theorem loadBack_terminates (b : Bytes) (fuel back : Nat) (h : back < fuel) :
+    loadBackB b fuel back ≠ .fuel := loadBackB_ne_fuel b fuel back h
+
+/-- `recover_identity`.  On a well-formed file the run ends normally and the output storage's
+    iterator yields exactly what the input's iterator yields (tids, status, metadata, records
+    with resolved data, un-creations, hints). -/
+theorem recover_identity (S : Store) (h : WFStore S) :
+    ∃ D rs, recover (encStore S) = .done D ∧ iterate S = some rs ∧ iterate D = some rs :=
+  Proofs.Recover.recover_identity h
+
+theorem recover_identity_out (S : Store) (h : WFStore S) : recoverOut (encStore S) = iterate S := by
+  obtain ⟨D, rs, h1, h2, h3⟩ := Proofs.Recover.recover_identity h
+  simp [recoverOut, h1, h2, h3]
+
+/-- `recover_prefix`.  For a well-formed file image followed by ARBITRARY bytes `g` (any
+    truncation of, or damage to, everything behind a transaction boundary) the run ends normally
+    and the output storage has, as its oldest part, a storage that iterates exactly like the
+    well-formed part: every transaction ending before the damage is recovered, unchanged. -/
+theorem recover_prefix (S : Store) (h : WFStore S) (g : Bytes) :
+    ∃ D' newer D rs, recover (encStore S ++ g) = .done D' ∧ D' = newer ++ D ∧
+      iterate S = some rs ∧ iterate D = some rs :=
+  Proofs.Recover.recover_prefix h g
+
+/-- `recover_only_input_txns_partial`.  `S = post ++ pre` is the original store, the image is the
+    image of its oldest part `pre` followed by ARBITRARY bytes (the damaged region and whatever
+    follows).  Hypothesis `NoFalseResync` (explicit, decidable for a concrete image — see
+    `noFalseResync_of_check`): behind the intact prefix `read_txn_header` accepts a header only at
+    the start of an intact transaction of `S` whose back pointers lead only through intact
+    records.  Then the output's history is the whole history of `pre` followed only by
+    transactions of `S`: unchanged tid, status, metadata and record bytes, in order, each whole.
+    "partial": the statement without the hypothesis is FALSE for this file format — it has no
+    checksum, so e.g. a changed pickle byte is copied (witness below: `damaged_pickle_is_copied`). -/
+theorem recover_only_input_txns_partial (S pre post : Store) (g : Bytes) (hS : WFStore S)
+    (hsplit : S = post ++ pre) (hnfr : NoFalseResync (encStore pre ++ g) S (storeSize pre)) :
+    ∃ D' its src srcpre, recover (encStore pre ++ g) = .done D' ∧ iterate D' = some its ∧
+      iterate S = some src ∧ iterate pre = some srcpre ∧
+      (absH its).Sublist (absH src) ∧ absH srcpre <+: absH its :=
+  Proofs.Recover.recover_only_input_txns hS hsplit hnfr
+
+/-- the finite check that establishes `NoFalseResync` for a concrete image -/
+theorem noFalseResync_of_check (F : Bytes) (S : Store) (p0 : Nat)
+    (intact : List (Store × Txn × Store))
+    (hint : ∀ e ∈ intact, S = e.1 ++ e.2.1 :: e.2.2 ∧ IntactAt F e.2.2 e.2.1)
+    (hchk : ∀ p, p < F.length → p0 ≤ p →
+      readTxnHeader F p none = .bad ∨ readTxnHeader F p none = .eof ∨
+        ∃ e ∈ intact, p = storeSize e.2.2) :
+    NoFalseResync F S p0 :=
+  Proofs.Recover.noFalseResync_of_check intact hint hchk
+
+/-! ## non-vacuity: a concrete history with an undo record and an un-creation
+
+`t1` stores oids 1 and 2, `t2` rewrites oid 1, `t3` undoes `t2` and the creation of oid 2: a back
+pointer to the first record of `t1`, and a zero back pointer. -/
+
+def t1 : Txn := ⟨1, 32, [117], [], [], [⟨1, 1, none, .full [78, 46]⟩, ⟨2, 1, none, .full [79, 46]⟩]⟩
+def t2 : Txn := ⟨2, 32, [], [100], [], [⟨1, 2, some (0, 0), .full [80, 46]⟩]⟩
+def t3 : Txn := ⟨3, 32, [], [], [], [⟨1, 3, some (1, 0), .back 0 0⟩, ⟨2, 3, some (0, 1), .uncreate⟩]⟩
+def exS : Store := [t3, t2, t1]
+
+def exSrc : List ITxn :=
+  [⟨1, 32, [117], [], [], [⟨1, 1, some [78, 46], none⟩, ⟨2, 1, some [79, 46], none⟩]⟩,
+   ⟨2, 32, [], [100], [], [⟨1, 2, some [80, 46], none⟩]⟩,
+   ⟨3, 32, [], [], [], [⟨1, 3, some [78, 46], some 1⟩, ⟨2, 3, none, none⟩]⟩]
+
+theorem exS_ok : StoreOK exS := by
+  refine ⟨⟨⟨trivial, by decide, ?_⟩, by decide, ?_⟩, by decide, ?_⟩
+  · intro r hr
+    simp only [t1, List.mem_cons, List.not_mem_nil, or_false] at hr
+    rcases hr with rfl | rfl <;> exact ⟨rfl, trivial⟩
+  · intro r hr
+    simp only [t2, List.mem_cons, List.not_mem_nil, or_false] at hr
+    subst hr
+    exact ⟨rfl, trivial⟩
+  · intro r hr
+    simp only [t3, List.mem_cons, List.not_mem_nil, or_false] at hr
+    rcases hr with rfl | rfl
+    · exact ⟨rfl, t1, [], by decide, by decide⟩
+    · exact ⟨rfl, trivial⟩
+
+theorem exS_enc : StoreEnc exS := by
+  refine ⟨by decide +kernel, ?_⟩
+  intro t ht
+  simp only [exS, List.mem_cons, List.not_mem_nil, or_false] at ht
+  rcases ht with rfl | rfl | rfl
+  all_goals
+    refine ⟨by decide, by decide, by decide, by decide, by decide, ?_⟩
+    intro r hr
+    simp only [t1, t2, t3, List.mem_cons, List.not_mem_nil, or_false] at hr
+    rcases hr with rfl | rfl <;> (refine ⟨by decide, by decide, ?_⟩; simp [hugeRead])
+
+theorem exS_wf : WFStore exS := ⟨exS_ok, exS_enc⟩
+
+/-- the iterator resolves the back pointer and reports the one-hop hint; the zero back pointer is
+    an un-creation -/
+example : iterate exS = some exSrc := by decide
+/-- copying reproduces the iteration, writing a back pointer again (same image as the source) -/
+example : (copy exSrc []).toOption.map iterate = some (some exSrc) := by decide
+example : (copy exSrc []).toOption.map encStore = some (encStore exS) := by decide +kernel
+/-- copying `iterator(3, None)`: the hinted transaction 1 is not in the destination, the record
+    is restored as a full copy (the repaired `restore`; the unrepaired one raised UndoError) -/
+example : (copy (iterRange exSrc (some 3) none) []).toOption.bind iterate =
+    some [⟨3, 32, [], [], [], [⟨1, 3, some [78, 46], none⟩, ⟨2, 3, none, none⟩]⟩] := by decide
+
+/-- recovery of the undamaged image (331 bytes) … -/
+example : recoverOut (encStore exS) = some exSrc := by decide +kernel
+/-- … of the image cut by exactly 8 bytes (the input on which the unrepaired `scan` never
+    returned): the run ends, the two complete transactions are recovered … -/
+example : recoverOut ((encStore exS).take ((encStore exS).length - 8)) = some (exSrc.take 2) := by
+  decide +kernel
+
+/-- … and of the image whose second transaction has its status byte overwritten with 'x' -/
+def exDamaged : Bytes := (encStore exS).set (storeSize [t1] + 16) 120
+
+theorem exDamaged_split : exDamaged = encStore [t1] ++ exDamaged.drop 124 := by decide +kernel
+
+theorem ex_intact : IntactAt exDamaged [t2, t1] t3 := by
+  refine ⟨⟨exDamaged.take 200, [], by decide +kernel, by decide +kernel⟩, ?_⟩
+  intro r hr
+  simp only [t3, List.mem_cons, List.not_mem_nil, or_false] at hr
+  rcases hr with rfl | rfl
+  · refine ⟨⟨by decide, by decide, trivial⟩, ?_⟩
+    show ChainAt exDamaged [t2, t1] 0 0
+    simp only [ChainAt, t1, t2, List.length_cons, List.length_nil]
+    exact ⟨⟨exDamaged.take 28, exDamaged.drop (28 + 44), by decide +kernel, by decide +kernel⟩,
+      ⟨by decide, by decide, by simp [hugeRead]⟩, by decide⟩
+  · exact ⟨⟨by decide, by decide, trivial⟩, trivial⟩
+
+/-- the damaged image meets the hypothesis of `recover_only_input_txns_partial` … -/
+theorem ex_noFalseResync : NoFalseResync (encStore [t1] ++ exDamaged.drop 124) exS (storeSize [t1]) := by
+  rw [← exDamaged_split]
+  refine Proofs.Recover.noFalseResync_of_check [(([] : Store), t3, [t2, t1])] ?_ (by decide +kernel)
+  intro e he
+  simp only [List.mem_cons, List.not_mem_nil, or_false] at he
+  subst he
+  exact ⟨rfl, ex_intact⟩
+
+/-- … so its conclusion holds for it; concretely the output is `t1`, then `t3` (found again by
+    `scan` behind the damaged `t2`), both unchanged -/
+example : ∃ D' its src srcpre, recover (encStore [t1] ++ exDamaged.drop 124) = .done D' ∧
+    iterate D' = some its ∧ iterate exS = some src ∧ iterate [t1] = some srcpre ∧
+    (absH its).Sublist (absH src) ∧ absH srcpre <+: absH its :=
+  recover_only_input_txns_partial exS [t1] [t3, t2] _ exS_wf rfl ex_noFalseResync
+
+example : recoverOut exDamaged = some [exSrc[0], exSrc[2]] := by decide +kernel
+
+/-- the hypothesis cannot be dropped: one changed pickle byte (offset 190, 'P' → 'Q') passes every
+    check of the tool, and the output contains a transaction that is NOT a transaction of the
+    input (the format has no checksum) -/
+theorem damaged_pickle_is_copied :
+    recoverOut ((encStore exS).set 190 81) =
+      some [exSrc[0], ⟨2, 32, [], [100], [], [⟨1, 2, some [81, 46], none⟩]⟩, exSrc[2]] := by
+  decide +kernel
 
 end Props.C17
